@@ -36,6 +36,11 @@ JudgeCall(e, i) ==
             (r.what = "Leave" /\ r.res = "ok" /\ ~r.afterShutdown) => r.selfAfter = "left")
   /\ Report("VERDICT", "C08_LeaveSent", e, i,
             (r.what = "Leave" /\ r.res = "ok" /\ ~r.repeat /\ ~r.afterShutdown /\ r.peerAlive) => r.signalable)
+  \* ... and, whenever the node listed another member as alive or suspect (the harness looked, not the node), the
+  \* departure had been handed out for a packet at least once before Leave reported success
+  /\ Report("VERDICT", "C08_LeaveSentOut", e, i,
+            (r.what = "Leave" /\ r.res = "ok" /\ ~r.repeat /\ ~r.afterShutdown /\ r.peerListed /\ r.role = "whole")
+               => r.sentBefore)
   /\ PrintT(<<"STAT2", "C20_" \o r.role \o "_" \o r.stage, 1, 1>>)
 
 JudgeL(e) ==
